@@ -479,8 +479,12 @@ def run(ck):
     ns = list(range(0, 61)) + [99, 100, 101, 130] if q else list(range(0, 131))
     sis = (1, 2, 3, 5, 7, 10, 12) if q else range(1, 13)
     ck.run_cases("arith", [dict(N=2 + (si % 2), si=si, ns=ns[k::4]) for si in sis for k in range(4)], chunk=1)
-    ck.rule = ("all interleavings (stateful BFS over consistent cuts) of parent + N worker processes for every command script of the listed lengths; "
-               "all pairings and accept/reject outcomes of swap() under the scripted generator; all (n, swap_interval) on the listed grid. "
-               "Distinct non-trivial = (N, capacity, display, order of magnitude of states) / accepted+rejected exchanges per N and class / pairings / arithmetic classes")
-    ck.assume("scheduling points at IPC operations only (workers are separate address spaces); scripts up to the listed length; N <= 4 for interleavings")
-    ck.assume("ParallelTempering.run_for is covered through take_steps/swap only (real clock chooses a repeat count)")
+    ck.rule = ("all interleavings of parent + N worker processes for every command script of the listed lengths, by explicit-state search over global states "
+               "(per-process IPC history + pending operation, channel contents, shutdown flag) composed from local steps that were each observed in a real execution; every real execution "
+               "first checks that the real world carries the predicted state, every 97th composed state and every final state is re-executed for real, and on the small configurations the "
+               "graph is compared with the plain search that reaches every state by a real execution (traces_validated_against_impl counts these real executions); all pairings and "
+               "accept/reject outcomes of swap() under the scripted generator incl. consecutive rounds and unsorted ladders; all (n, swap_interval) on the listed grid. "
+               "Distinct non-trivial = (N, capacity, display, order of magnitude of states) / accepted+rejected exchanges per N, class, ladder / pairings / arithmetic classes")
+    ck.assume("scheduling points at IPC operations only (workers are separate address spaces); a process is a deterministic function of what it has received and of the shutdown flag "
+              "(the assumption under which states are merged and local steps are memoised; audited by the conformance executions)")
+    ck.assume("scripts up to the listed length; N <= 4 (quick) / 5 (thorough) for interleavings; ParallelTempering.run_for is exercised under a virtual clock in C15")
